@@ -516,7 +516,7 @@ def tie_and_boundary_probes(run, rng, thorough):
         gp = GridPoints(np.array(mesh), np.eye(3), is_mesh_symmetry=False)
         ga = np.array(gp.grid_address, dtype="int64")
         gmt = np.array(gp.grid_mapping_table, dtype="int64")
-        nir, nb = len(ga), 2
+        nir, nb = int((gmt == np.arange(len(gmt))).sum()), 2
         for kind in ("flat", "integer-valued"):
             freqs = np.full((nir, nb), 1.0) if kind == "flat" else np.array([[float(rng.randint(0, 2)) for _ in range(nb)] for _ in range(nir)])
             fpts = np.array([-0.5, 0.0, 0.5, 1.0, 1.5, 2.0, 2.5])
@@ -526,6 +526,9 @@ def tie_and_boundary_probes(run, rng, thorough):
             phonoc.tetrahedron_method_dos(*args)
             central = [int(np.nonzero((np.array(t) == 0).all(axis=1))[0][0]) for t in rga_c]
             tpx = TM.TetrahedronMethod(None, lang="Py")
+            if not (hasattr(tpx, "_relative_grid_addresses") and hasattr(tpx, "_central_indices")):
+                run.count("intermediate hook unavailable: TetrahedronMethod._central_indices (DOS transcription skipped)", section="oracle")
+                continue
             tpx._relative_grid_addresses, tpx._central_indices = np.array(rga_c), central
 
             def iwf(w, tet, tpx=tpx):
@@ -589,7 +592,7 @@ def kernel_shape_sweeps(run, rng, thorough, lib_ser, shim_omp, intensify):
         gp = GridPoints(np.array(mesh), np.eye(3), is_mesh_symmetry=False)
         ga = np.array(gp.grid_address, dtype="int64")
         gmt = np.array(gp.grid_mapping_table, dtype="int64")
-        nir = len(ga)
+        nir = int((gmt == np.arange(len(gmt))).sum())     # irreducible points = fixed points of the mapping table
         freqs = np.sort(r.uniform(0, 5, size=(nir, nb)), axis=1)
         fpts = np.linspace(0.1, 4.9, nf)
         coef = r.uniform(0.5, 1.5, size=(nir, 2, nb))
@@ -613,6 +616,9 @@ def kernel_shape_sweeps(run, rng, thorough, lib_ser, shim_omp, intensify):
         if nir * nb * nf <= 1300:
             central = [int(np.nonzero((np.array(t_) == 0).all(axis=1))[0][0]) for t_ in rga]
             tpx = TM.TetrahedronMethod(None, lang="Py")
+            if not (hasattr(tpx, "_relative_grid_addresses") and hasattr(tpx, "_central_indices")):
+                run.count("intermediate hook unavailable: TetrahedronMethod._central_indices (DOS transcription skipped)", section="oracle")
+                continue
             tpx._relative_grid_addresses, tpx._central_indices = np.array(rga), central
 
             def iwf(w, tet, tpx=tpx):
@@ -788,23 +794,23 @@ def main(run):
     sys.path.insert(0, os.path.join(common.VERIF, "tools"))
     import pragmas
 
-    inv = pragmas.inventory(common.REPO)
-    keys = [pragmas.key(r) for r in inv]
-    # the inventory the model records (text of Model/KernelFootprint.lean; the driver's answer is compared at the end):
-    # a pragma whose clauses / loop / writer callees changed, or a new one, steers the failing-input search
+    # canonical inventory: invariant under renaming of statics/locals, private() vs body-local declarations, loop bodies
+    # moved into helpers; it identifies the external entry points, loop bound, if-clause and the shared objects written
+    inv, mallocs_canon = pragmas.canonical(common.REPO)
+    keys = [r["key"] for r in inv]
     mtxt = open(os.path.join(common.LEAN_DIR, "PhononModel", "Model", "KernelFootprint.lean")).read()
-    mtxt = mtxt[mtxt.index("def inventory"):mtxt.index("def mallocInventory")] if "def mallocInventory" in mtxt and mtxt.index("def mallocInventory") > mtxt.index("def inventory") else mtxt[mtxt.index("def inventory"):]
-    model_keys_early = re.findall(r'^\s*"(c/[^"]*)"', mtxt, re.M)
-    changed_pragmas = sorted(set(keys) ^ set(model_keys_early))
+    mtxt = mtxt[mtxt.index("def inventory"):mtxt.index("/-! ## heap temporaries")]
+    model_keys_early = [k_.replace('\\"', '"') for k_ in re.findall(r'^\s*"(c/.*)",?\s*$', mtxt, re.M)]
+    changed_pragmas = sorted(k_ for k_ in set(keys) | set(model_keys_early) if keys.count(k_) != model_keys_early.count(k_))
     intensify = bool(changed_pragmas)
-    run.cov["correspondence"]["pragmas_changed_vs_model"] = [k_.split("|")[1] for k_ in changed_pragmas]
+    run.cov["correspondence"]["pragmas_changed_vs_model"] = [k_.split("|")[1].split(",")[0] + ": " + k_.split("|", 3)[3] for k_ in changed_pragmas]
     run.cov["correspondence"]["pragmas_found"] = len(inv)
-    run.cov["correspondence"]["private_complete"] = sum(1 for r in inv if r.get("private_complete"))
+    run.cov["correspondence"]["private_complete"] = sum(1 for r in inv if not r.get("shared_written_locals"))
     for r in inv:
-        if not r.get("private_complete"):
-            run.broke("correspondence", "private clause incomplete at %s:%d (%s): body assigns %s, private %s" % (
-                r["file"], r["line"], r["function"], r.get("body_assigns_locals"), r["private"]))
+        if r.get("shared_written_locals"):
             # a statement about the source text: the thread sweeps below are the search for a failing input
+            run.broke("correspondence", "function-scope locals %s of %s (%s) are written inside a parallel region without being private" % (
+                r["shared_written_locals"], r["function"], r["file"]))
 
     # ---------------- scenarios under capture
     nscen = 24 if thorough else 2
@@ -843,8 +849,8 @@ def main(run):
     # ---- kernels with size-dependent behaviour: one supercell beyond every threshold, through the public path
     thresholds = []
     for r in inv:
-        for m_ in re.finditer(r"(>=|>|<=|<)\s*(\d+)", r.get("if_resolved") or ""):
-            thresholds.append(dict(function=r["function"], condition=r["if_resolved"], op=m_.group(1), value=int(m_.group(2))))
+        for m_ in re.finditer(r"(>=|>|<=|<)\s*(\d+)", r.get("cond") or ""):
+            thresholds.append(dict(function=",".join(r["entries"]) + "," + r["function"], condition=r["cond"], op=m_.group(1), value=int(m_.group(2))))
     run.cov["correspondence"]["pragma_if_size_thresholds"] = thresholds
 
     def shim_of(variant):
@@ -1018,8 +1024,11 @@ def main(run):
             from phonopy.structure import tetrahedron_method as TMmod
             tmx = TMmod.TetrahedronMethod(None, lang="Py")
             central = [int(np.nonzero((np.array(t) == 0).all(axis=1))[0][0]) for t in args[7]]
-            tmx._relative_grid_addresses, tmx._central_indices = np.array(args[7]), central
-            found = True
+            found = hasattr(tmx, "_relative_grid_addresses") and hasattr(tmx, "_central_indices")
+            if found:
+                tmx._relative_grid_addresses, tmx._central_indices = np.array(args[7]), central
+            else:
+                run.count("intermediate hook unavailable: TetrahedronMethod._central_indices (DOS transcription skipped)", section="oracle")
             if found:
                 def iwf(w, tet, tmx=tmx):
                     tmx.set_tetrahedra_omegas(tet)
@@ -1086,7 +1095,7 @@ def main(run):
     # ---------------- correspondence with the Lean footprint model
     lines.append("inventory")
     owners.append(("inventory", None, None, None, None, None))
-    mallocs = [r["key"] for r in pragmas.malloc_inventory(common.REPO)]
+    mallocs = [r["key"] for r in mallocs_canon]
     lines.append("mallocs")
     owners.append(("mallocs", None, None, None, None, None))
     run.cov["correspondence"]["mallocs_found"] = len(mallocs)
